@@ -56,6 +56,50 @@ def _strip_sig(src: str) -> str:
     return "\n".join(l for l in (src or "").split("\n") if not l.startswith("void "))
 
 
+def _c_bitwise_next_to_comparison(src: str) -> str | None:
+    """loopy's C printer keeps Python's operator precedence: Comparison(BitwiseXor(a, b), ">=", c) is printed as
+    `a ^ b >= c`, which C parses as a ^ (b >= c); a comparison that is the operand of a comparison is printed
+    `0 > x > 0.0f`.  Returns the offending statement if the generated source contains a bitwise operator and a
+    comparison, or two comparisons, at one parenthesis depth of one expression."""
+    import re
+    for line in (src or "").split("\n"):
+        if "=" not in line or line.lstrip().startswith(("for", "if", "#", "__kernel", "void", "}")):
+            continue
+        rhs = line.split("=", 1)[1]
+        depth = 0
+        seen: dict[int, set] = {}
+        i = 0
+        while i < len(rhs):
+            ch = rhs[i]
+            two = rhs[i:i + 2]
+            if ch == "(" or ch == "[":
+                depth += 1
+                seen.pop(depth, None)
+            elif ch == ")" or ch == "]":
+                seen.pop(depth, None)
+                depth -= 1
+            elif two in ("&&", "||"):
+                seen.pop(depth, None)
+                i += 1
+            elif ch in "?:,;":
+                seen.pop(depth, None)
+            elif two in ("<=", ">=", "==", "!=") or (ch in "<>" and two not in ("<<", ">>")):
+                if "cmp" in seen.get(depth, set()):
+                    # `0 > x > 0.0f` for Comparison(0, ">", Comparison(x, ">", 0)): C parses it left to right
+                    return line.strip()[:200]
+                seen.setdefault(depth, set()).add("cmp")
+                if two in ("<=", ">=", "==", "!="):
+                    i += 1
+            elif two in ("<<", ">>"):
+                i += 1
+            elif ch in "&|^":
+                seen.setdefault(depth, set()).add("bit")
+            if seen.get(depth) == {"cmp", "bit"}:
+                return line.strip()[:200]
+            i += 1
+    return None
+
+
 def compare_outputs(ctx, prop_sig, p, runs, res, extra=None):
     """returns number of disagreements; reports violations"""
     dis = 0
@@ -100,6 +144,16 @@ def compare_outputs(ctx, prop_sig, p, runs, res, extra=None):
                 continue
             if not close(got, exp, single=p.uses_single()):
                 dis += 1
+                stmt = _c_bitwise_next_to_comparison(getattr(res, "source", None) or "")
+                if stmt:
+                    # the kernel pytato built is right (its instruction-level interpretation is checked separately);
+                    # loopy prints it with Python's precedence
+                    ctx.violation("loopy-c-printer:operand-of-comparison-not-parenthesized",
+                                  f"program {p.index} (seed {ctx.seed}) output {name}: loopy prints the kernel expression as "
+                                  f"`{stmt}` — in C the comparison binds tighter than & ^ |, the kernel means the opposite",
+                                  {"program_index": p.index, "seed": ctx.seed, "output": name, "statement": stmt,
+                                   "ops": p.ops, **(extra or {})})
+                    continue
                 ctx.violation(f"{prop_sig}:value-mismatch",
                               f"program {p.index} (seed {ctx.seed}) output {name}: generated code differs from "
                               f"the reference (ops {sorted(set(p.ops))})",
@@ -233,14 +287,14 @@ def batch_special_value_table(ctx):
                    value_classes=[str(v) for v in vals])
 
 
-def _num_close(got, ref, exact=False):
+def _num_close(got, ref, exact=False, single=False):
     """value comparison across (recorded) dtype deviations: both sides as complex/float"""
     got, ref = np.asarray(got), np.asarray(ref)
     if got.shape != ref.shape:
         return False
     if exact and got.dtype.kind in "biu" and ref.dtype.kind in "biu":
         return bool(np.array_equal(got.astype(np.int64), ref.astype(np.int64)))
-    single = any(d in (np.dtype("float32"), np.dtype("complex64")) for d in (got.dtype, ref.dtype))
+    single = single or any(d in (np.dtype("float32"), np.dtype("complex64")) for d in (got.dtype, ref.dtype))
     with np.errstate(all="ignore"):
         return close(got.astype(np.complex128) if got.dtype.kind == "c" or ref.dtype.kind == "c" else got.astype(np.float64),
                      ref.astype(np.complex128) if got.dtype.kind == "c" or ref.dtype.kind == "c" else ref.astype(np.float64),
@@ -292,7 +346,8 @@ def batch_api_table(ctx):
             except Exception as e:   # noqa: BLE001
                 ctx.broken.append(f"refeval:api-table:{c['label']}:{type(e).__name__}:{str(e)[:60]}")
                 continue
-            if not _num_close(gv, ref, c.get("exact", False)):
+            sp = any(np.asarray(v).dtype in (np.dtype("float32"), np.dtype("complex64")) for v in inp.values())
+            if not _num_close(gv, ref, c.get("exact", False), single=sp):
                 dis += 1
                 bad = np.argwhere(~np.isclose(np.asarray(gv, dtype=np.complex128), np.asarray(ref, dtype=np.complex128),
                                               equal_nan=True))[:3].tolist() if gv.shape == ref.shape else []
@@ -303,9 +358,10 @@ def batch_api_table(ctx):
                                "graph_value": np.asarray(gv).tolist(), "numpy": ref.tolist()})
                 continue
             nchecked += 1
-            if ctx.thorough or nchecked % 3 == ctx.seed % 3:
+            if ctx.thorough or nchecked % 3 == ctx.seed % 3 or c.get("always_execute"):
                 # (the generated code vs the graph is what the program streams check; here a third per run)
-                jobs.append(cexec.Job(tag=f"api:{c['label']}", expr=expr, runs=[inp], prep=_prep_dedup))
+                jobs.append(cexec.Job(tag=f"api:{c['label']}", expr=expr, runs=[inp], prep=_prep_dedup,
+                                      want_source=True))
                 meta.append((c, ref))
         res = cexec.run_jobs(ctx, jobs)
         unsupported: dict[str, int] = {}
@@ -330,8 +386,15 @@ def batch_api_table(ctx):
             got = r.outputs[0].get("o")
             if got is None and ref.size == 0:
                 continue
-            if got is None or not _num_close(got, ref, c.get("exact", False)):
+            sp = any(np.asarray(v).dtype in (np.dtype("float32"), np.dtype("complex64")) for v in c["inputs"].values())
+            if got is None or not _num_close(got, ref, c.get("exact", False), single=sp):
                 dis += 1
+                stmt = _c_bitwise_next_to_comparison(getattr(r, "source", None) or "")
+                if stmt:
+                    ctx.violation("loopy-c-printer:operand-of-comparison-not-parenthesized",
+                                  f"{c['label']}: loopy prints the kernel expression as `{stmt}` — in C the comparison binds "
+                                  f"tighter than & ^ |, the kernel means the opposite", {"call": c["label"], "statement": stmt})
+                    continue
                 ctx.violation(f"api-semantics:generated-code:{fn}",
                               f"{c['label']}: generated code gives {None if got is None else np.asarray(got).reshape(-1)[:6].tolist()}…, "
                               f"NumPy {ref.reshape(-1)[:6].tolist()}…",
